@@ -47,6 +47,13 @@ def _apply_edits(root, edits):
                 return None
             with open(path, encoding="utf-8") as f:
                 text = f.read()
+        if nth == -2:
+            # regular-expression substitution (whole-word renamings)
+            new_text, n_sub = re.subn(old, new, text)
+            if not n_sub:
+                return None
+            overlay[file] = new_text
+            continue
         if nth == -1:
             # every occurrence (renamings)
             if old not in text:
